@@ -1076,7 +1076,12 @@ func schedLoop(pl *Plan, sched []Quantum, tasks []*rt.Task, sw *schedWorld, fp0 
 				// is released. While a task is detached the runtime identifies callers by goroutine id.
 				// A task that is merely slow (long input, race build, loaded machine) burns CPU meanwhile,
 				// a blocked one does not: as long as the process keeps computing, keep waiting.
-				if c := cpuTime(); c-cpu0 > 30*time.Millisecond && waited < 100 {
+				// A library without a single synchronisation statement (channel operation, lock, wait,
+				// atomic; marked by the instrumenter) has nothing to block on: there the task is slow or
+				// the machine is loaded (seen once: load average 160, a worker got less than 30 ms of CPU
+				// in 300 ms, a task was wrongly detached, the run lost its determinism and the check ended
+				// with exit 2 on the unchanged tree). Wait on, with a ten-minute backstop.
+				if c := cpuTime(); (c-cpu0 > 30*time.Millisecond && waited < 100) || (len(rt.SyncSites) == 0 && waited < 2000) {
 					cpu0 = c
 					waited++
 					timer.Reset(300 * time.Millisecond)
